@@ -487,14 +487,16 @@ void construct(Slot& s, int kind, int n, uint64_t seed, const std::vector<std::t
     }
     case K_COO: {
         md.trip = like ? *like : gen_sparse(g, n);
-        s.coo   = std::make_unique<SparseMatrixCOO<double>>(n, n, md.trip);
+        md.m    = n + (g.chance(0.4) ? g.range(1, 3) : 0); // rectangular: trailing empty columns
+        s.coo   = std::make_unique<SparseMatrixCOO<double>>(n, md.m, md.trip);
         md.symmetric = g.chance(0.3);
         s.coo->is_symmetric(md.symmetric);
         break;
     }
     case K_CSR: {
         md.trip = like ? *like : gen_sparse(g, n);
-        s.csr   = std::make_unique<SparseMatrixCSR<double>>(n, n, md.trip);
+        md.m    = n + (g.chance(0.4) ? g.range(1, 3) : 0);
+        s.csr   = std::make_unique<SparseMatrixCSR<double>>(n, md.m, md.trip);
         break;
     }
     case K_LU: {
@@ -542,7 +544,8 @@ void observe(Slot& s, Fails& out, const std::string& ctx, uint64_t seed)
             }
         break;
     case K_COO:
-        if (s.coo->rows() != md.n || s.coo->non_zero_size() != (int)md.trip.size() || s.coo->is_symmetric() != md.symmetric) {
+        if (s.coo->rows() != md.n || s.coo->columns() != md.m || s.coo->non_zero_size() != (int)md.trip.size() ||
+            s.coo->is_symmetric() != md.symmetric) {
             out.fail(fmt("C15.shape_differs:%s", kn), ctx);
             return;
         }
@@ -554,7 +557,7 @@ void observe(Slot& s, Fails& out, const std::string& ctx, uint64_t seed)
             }
         break;
     case K_CSR: {
-        if (s.csr->rows() != md.n || s.csr->non_zero_size() != (int)md.trip.size()) {
+        if (s.csr->rows() != md.n || s.csr->columns() != md.m || s.csr->non_zero_size() != (int)md.trip.size()) {
             out.fail(fmt("C15.shape_differs:%s", kn), ctx);
             return;
         }
@@ -583,7 +586,7 @@ void observe(Slot& s, Fails& out, const std::string& ctx, uint64_t seed)
         break;
     }
     default:
-        if (s.diag->rows() != md.n) {
+        if (s.diag->rows() != md.n || s.diag->columns() != md.n) {
             out.fail(fmt("C15.size_differs:%s", kn), ctx);
             return;
         }
